@@ -85,7 +85,7 @@ CHECKS = {
         note="trusts rdbgen/rdbcat (written from rdb.h/rdb.c, self-checking LZF) and crcref; header versions 1-4 are driven without a checksum trailer; bounds on word length and on the alphabet are stated in the evidence",
         rule="case = (word of alphabet items, header version, reader mode); states = distinct word prefixes (trie nodes) plus distinct dumped loader states (db, remainMember, lastReadCount, totMemberCount); transitions = parser runs; non-trivial = word contains at least one key or Lua record",
         parts=[dict(pkg="./pkg/rdb", harness=["rdb"], test="^TestVerif_C01$", shards=16, budget=dict(quick=90, thorough=1500), mem_kb=8*1024*1024,
-                    race=True, race_test="^TestVerif_C01Race$", race_shards=1)],
+                    race=True, race_test="^TestVerif_C01Race$", race_shards=12)],
     ),
     "C11": dict(
         level="fault_enumeration",
@@ -102,7 +102,7 @@ CHECKS = {
             dict(pkg="./pkg/rdb/digest", harness=["digest"], test="^TestVerif_C11A$", shards=1, budget=dict(quick=60, thorough=120)),
             dict(pkg="./pkg/libs/cupcake/rdb/crc64", harness=["crc64"], test="^TestVerif_C11A$", shards=1, budget=dict(quick=60, thorough=120)),
             dict(pkg="./pkg/rdb", harness=["rdb"], test="^TestVerif_C11B$", shards=32, shards_thorough=256, budget=dict(quick=60, thorough=900), mem_kb=0, mem_soft_kb=0,
-                 race=True, race_test="^TestVerif_C11Race$", race_shards=1),
+                 race=True, race_test="^TestVerif_C11Race$", race_shards=12),
             dict(pkg="./redis-shake/common", harness=["common"], test="^TestVerif_C11U$", shards=16, budget=dict(quick=90, thorough=600)),
         ],
     ),
